@@ -1081,7 +1081,7 @@ def threshold_cases(tier):
     one_d = sorted({2 ** k + 1 for k in range(7, 17)} | {2 ** k + 2 ** (k - 1) + 3 for k in range(7, 17)})
     shapes = [[n] for n in one_d] + [[129, 3], [65, 65], [150, 150], [3, 50, 31], [181, 182], [300, 300], [257, 1030], [513, 513]]
     if not quick:
-        shapes += [[4097], [2, 2049], [64, 64], [128, 128], [1000, 1100]]
+        shapes += [[4096], [2, 2049], [64, 64], [128, 128], [1000, 1100]]
     cases = []
     for shp in shapes:
         n = int(np.prod(shp))
@@ -1089,7 +1089,7 @@ def threshold_cases(tier):
             if prec == 32 and n > 2 ** 18:
                 continue
             for group in ('mueller', 'ctor') + (('adapter',) if len(shp) == 2 and n <= 2 ** 19 else ()):
-                cases.append({'group': group, 'shape': shp, 'hy': n <= 2 ** 13 + 2 ** 12 + 3, 'prec': prec})
+                cases.append({'group': group, 'shape': shp, 'hy': n <= 2 ** 15 + 2 ** 14 + 3, 'prec': prec})
     # one stack of more than 2^20 Jones matrices (a 1025 x 1025 Jones pupil): a single conversion in the quick tier, the full group in the thorough tier
     cases.append({'group': 'mueller', 'shape': [1025, 1025], 'hy': False, 'prec': 64, **({'single': True} if quick else {})})
     if not quick:
@@ -1135,17 +1135,22 @@ def evaluate(stage):
                         m['errors'][key] = f'{type(e).__name__}: {e}'
                     if c20._arg_snapshot(a, kk) != snap:
                         m['mutated'].append(f'{key}: {snap} -> {c20._arg_snapshot(a, kk)}')
-        # the Wavefront methods route through the (possibly patched) module functions
-        E = c20.dense(shape, seed, salt=301)
-        for mname, margs in c20.WF_METHODS:
-            key = f'{stage}|Wavefront.{mname}|{shape[0]}x{shape[1]}'
-            c20.reset_executors(c20.PREC)
-            try:
-                w = P.Wavefront(E.copy(), 0.6, 0.5, space='psf' if mname == 'unfocus' else 'pupil')
-                res[key] = np.asarray(getattr(w, mname)(*margs).data)
-                meta['calls'] += 1
-            except Exception as e:
-                m['errors'][key] = f'{type(e).__name__}: {e}'
+        # the Wavefront methods route through the (possibly patched) module functions; 2-D data and Jones (N,M,2,2) data
+        for label, mname, routine, margs, mkw in c20.WF_METHODS:
+            for kind in ('2d', '4d'):
+                key = f'{stage}|Wavefront.{label}|{shape[0]}x{shape[1]}|{kind}'
+                x = c20.dense(shape, seed, salt=301) if kind == '2d' else c20.jones_input(shape, seed, '4d')
+                a, kk = c20._mk(margs, mkw, shape, seed)
+                snap = c20._arg_snapshot(a, kk)
+                c20.reset_executors(c20.PREC)
+                try:
+                    w = P.Wavefront(x, 0.6, 0.5, space='psf' if mname.startswith('unfocus') else 'pupil')
+                    res[key] = np.asarray(getattr(w, mname)(*a, **kk).data)
+                    meta['calls'] += 1
+                except Exception as e:
+                    m['errors'][key] = f'{type(e).__name__}: {e}'
+                if c20._arg_snapshot(a, kk) != snap:
+                    m['mutated'].append(f'{key}: {snap} -> {c20._arg_snapshot(a, kk)}')
 
 
 def run_mode(mode):
@@ -1183,7 +1188,12 @@ for mode in spec.get('modes', ['final']):
 '''
 
 HIST_SHAPES = [[4, 4], [4, 6]]
-WF_METHODS = (('focus', (100.0, 2)), ('unfocus', (100.0, 2)), ('free_space', (3.0, 2)), ('focus_fixed_sampling', (100.0, 2.0, 5)))
+# (label, Wavefront method, module routine it goes through, positional args, keyword args)
+WF_METHODS = (('focus', 'focus', 'focus', (100.0, 2), {}), ('unfocus', 'unfocus', 'unfocus', (100.0, 2), {}),
+              ('free_space', 'free_space', 'angular_spectrum', (3.0, 2), {}),
+              ('focus_fixed_sampling', 'focus_fixed_sampling', 'focus_fixed_sampling', (100.0, 2.0, 5), {}),
+              ('focus_fixed_sampling:shift-f64', 'focus_fixed_sampling', 'focus_fixed_sampling', (100.0, 2.0, 5), {'shift': F('f64', [1.5, -2.0])}),
+              ('unfocus_fixed_sampling:shift-f64:czt', 'unfocus_fixed_sampling', 'unfocus_fixed_sampling', (100.0, 0.5, [5, 6]), {'shift': F('f64', [0.5, -1.0]), 'method': 'czt'}))
 
 
 def hist_shapes(spec):
@@ -1313,20 +1323,38 @@ def _judge_history(case, spec, seed, R, staged, meta_all, res):
                                 R.expect_close(res.get(key4, FAILED), want, comp_tol(want), sig + ':polarized',
                                                f'polarised {name}{_describe(args, kw)} (call {ci}, {shape}, field {kind}) {after} vs component-wise plain propagation (relative per component)')
                         R.nontrivial(True)
-            E = dense(shape, seed, salt=301)
-            for mname, margs in WF_METHODS:
-                key = f'{n}|Wavefront.{mname}|{shape[0]}x{shape[1]}'
-                rk = ('Wavefront', mname, shape)
-                if rk not in refs:
+            for label, mname, routine, margs, mkw in WF_METHODS:
+                space = 'psf' if mname.startswith('unfocus') else 'pupil'
+
+                def wf_plain(x):
+                    a, kk = _mk(margs, mkw, shape, seed)
                     reset_executors(PREC)
-                    w = prop.Wavefront(E.copy(), 0.6, 0.5, space='psf' if mname == 'unfocus' else 'pupil')
-                    refs[rk] = np.asarray(getattr(w, mname)(*margs).data)
-                want = refs[rk]
-                if key in meta['errors']:
-                    R.violation(f'{sig0}:Wavefront.{mname}', f'Wavefront.{mname} raised {after}: {meta["errors"][key]}')
-                else:
-                    R.expect_close(res.get(key, FAILED), want, 64 * TOLU * max(1.0, float(np.abs(want).max())), f'{sig0}:Wavefront.{mname}',
-                                   f'Wavefront.{mname} {shape} {after}')
+                    return np.array(getattr(prop.Wavefront(x, 0.6, 0.5, space=space), mname)(*a, **kk).data)
+
+                for kind in ('2d', '4d'):
+                    if kind == '4d' and routine not in patched:
+                        continue
+                    key = f'{n}|Wavefront.{label}|{shape[0]}x{shape[1]}|{kind}'
+                    rk = ('Wavefront', label, shape, kind)
+                    if rk not in refs:
+                        if kind == '2d':
+                            refs[rk] = wf_plain(dense(shape, seed, salt=301))
+                        else:
+                            J = jones_input(shape, seed, '4d')
+                            comps = [wf_plain(np.ascontiguousarray(J[..., i, j])) for i in range(2) for j in range(2)]
+                            want = np.empty(comps[0].shape + (2, 2), dtype=complex)
+                            for q, c in enumerate(comps):
+                                want[..., q // 2, q % 2] = c
+                            refs[rk] = want
+                    want = refs[rk]
+                    wsig = f'{sig0}:Wavefront.{mname}' + (':polarized' if kind == '4d' else '')
+                    what = f'Wavefront.{mname}{_describe(margs, mkw)} on {"Jones (N,M,2,2)" if kind == "4d" else "2-D"} data {shape} {after}'
+                    if key in meta['errors']:
+                        R.violation(wsig, f'{what} raised: {meta["errors"][key]}')
+                    elif kind == '2d':
+                        R.expect_close(res.get(key, FAILED), want, 64 * TOLU * max(1.0, float(np.abs(want).max())), wsig, what + ' vs the never-patched method')
+                    else:
+                        R.expect_close(res.get(key, FAILED), want, comp_tol(want), wsig, what + ' vs the never-patched method on each Jones component (relative per component)')
 
 
 # ---------------------------------------------------------------------------------------------
@@ -1542,18 +1570,18 @@ def plan(tier, seed):
                   f'EVERY sequence of up to {2 if quick else 3} installation events over the alphabet {ev_alpha} (None = add_jones_propagation() with the default list; a list = add_jones_propagation(that subset); '
                   'manual = the user assigns jones_adapter(f) to the module attribute by hand)' + ('' if quick else '; depth 3 over {default, [focus], a three-element subset} and every event three times') + ', each in a fresh sub-process: '
                   'after the history exactly the UNION of the named attributes is replaced (partial-then-full, full-then-partial, disjoint and overlapping subsets, repeats), plain 2-D calls and Wavefront methods give the results of the '
-                  'never-patched routines, polarised (N,M,2,2) calls through every routine in the union equal component-wise plain propagation (relative per component), no call changes a caller\'s argument object. '
+                  'never-patched routines, polarised (N,M,2,2) calls through every routine in the union -- as module functions and through the Wavefront methods on Jones data (incl. float64-ndarray shifts) -- equal component-wise plain propagation (relative per component), no call changes a caller\'s argument object. '
                   'Each sequence of length >= 2 also runs "staged": the whole evaluation is made and judged after EVERY install event (call; install more; call again). Homogeneous sequences (the same event k times) use shapes (4,4) and (4,6), '
                   'three base call forms per routine on the dense field plus the amplitude-scale alphabet {1e-3,1e-9,1e-12} per component and overall; mixed and staged sequences use shape (4,6) and the dense field. '
                   'Every evaluation includes the argument-form alphabet of the adapter unit (shift as list / float64 / float32 / int ndarray / range / numpy scalars / 0-d arrays / strided view, x both engines; output_samples, Q and scalar parameter forms). '
                   'The subset container is also given as tuple and set. Precision 32 is crossed with the sequences of length <= 1, the homogeneous ones and those containing the default install' + ('' if quick else ' (all of them in this tier)') + '.', chunk=1),
         ScopeUnit('threshold', threshold_cases(tier), at_precision(run_threshold),
                   'size-threshold alphabet: batches of n = 2^k + 1 and 2^k + 2^(k-1) + 3 elements for k = 7..16 (1-D), leading shapes 129x3, 65x65, 150x150, 3x50x31, 181x182, 300x300, 257x1030, 513x513'
-                  + ('' if quick else ', 4097, 2x2049, 64x64, 128x128, 1000x1100') + ' and one 1025x1025 Jones pupil (> 2^20 matrices; ' + ('a single unitary conversion' if quick else 'full groups') + '), under precision 64 and (up to 2^18 elements) 32. '
+                  + ('' if quick else ', 4096, 2x2049, 64x64, 128x128, 1000x1100') + ' and one 1025x1025 Jones pupil (> 2^20 matrices; ' + ('a single unitary conversion' if quick else 'full groups') + '), under precision 64 and (up to 2^18 elements) 32. '
                   'Group mueller: jones_to_mueller of a batch of elliptical retarders with lattice-varying parameters (all elements distinct) == the Mueller matrix defined by S(JE) = M S(E) on EVERY element, M M^T = I, M00 = 1; of a seeded generic batch; '
                   'M(AB) = M(A) M(B) on every element; broadcast_kron == Kronecker product per element; Pauli coefficients reconstruct every element.  Group ctor: every constructor with array parameters + shape=, vector_vortex_retarder on a theta grid '
                   '(two settings), linear_pol_vector (radians, degrees), pauli_spin_matrix / circular_pol_vector with shape= against vectorised references on every element.  Group adapter (2-D shapes): apply_polarization_optic and jones_adapter(f) for the five routines '
-                  '(one setting each) == four plain propagations on every sample.  Call hygiene variants are on up to 12291 elements and off above.  This unit is NOT closed over the data dimension (one or two probe inputs per size).', chunk=1),
+                  '(one setting each) == four plain propagations on every sample.  Call hygiene variants (repeat, reused buffers, result held across a same-shape call, memory layout) are on up to 49155 elements and off above.  This unit is NOT closed over the data dimension (one or two probe inputs per size).', chunk=1),
         HistoryUnit('precision_history', [{'prec': 64}, {'prec': 32}], h_fresh, h_events, h_apply, h_check, h_canon, 3 if quick else 4,
                     f'BFS to depth {3 if quick else 4} from both initial precisions over events {H_EVENTS} (precision switches; jones_to_mueller of a fixed unitary and of a batch; linear_retarder; '
                     'vector_vortex_retarder; jones_adapter(focus_fixed_sampling) on a Jones field; pauli_spin_matrix): the last call equals, in dtype and to 4 eps(current precision), the same call made in a fresh '
